@@ -33,6 +33,9 @@ P = {
  "C14": ("Theorems C14_schedule_independent, C14_same_meaning_same_solutions (+ C14_perm_meaning), C14_optimum_schedule_independent: for any two pop policies / any two posting orders / implied constraints the yielded lists are permutations of each other and optima agree — unbounded model size. Tie: hook H3 perturbs Agenda::pop with a seeded policy that the model reproduces; sequences compared.",
          "Lean 4 proof (corollaries of enumeration exactness for arbitrary policies) with differential correspondence",
          "Declaration-order renaming and eager posting-time steps are exercised by the API-level oracle only."),
+ "C15": ("Theorems C15_prefix / C15_delivered_are_solutions (any limit oracle: delivered assignments are a prefix of the unlimited enumeration, hence genuine solutions), C15_solve_result / C15_minimize_result (Ok only for the unlimited answer, NoSolution only if nothing is yielded, otherwise Timeout/MemoryLimit — for arbitrary in-loop and post-loop test outcomes), C15_never_no_solution_when_satisfiable, C15_online_engine_is_fold. Tie: hook H6 forces the limit at the k-th engine check; every k is swept for small models through the real Model::solve/minimize/maximize/enumerate and compared with the model (event trace incl. stack pushes/pops, check counting, memory-estimate formula); deep models trip the real 1-2 MB memory estimate.",
+         "Lean 4 proof (limited engine as a fold over the unlimited event trace; equivalence with the online engine by induction) with differential correspondence",
+         "Wall-clock time is an abstract oracle; panics are observed by the harness (catch_unwind), not proved absent."),
  "C11": ("Lean 4 theorems about a model of SparseSet: well-formedness invariant and refinement to a plain mathematical set for every universe and every history of any length (C11_history_partial, C11_observers), with kernel-checked counterexamples for the two history shapes on which the pinned code violates the property (known findings). Tie: exact correspondence of full observable state (storage order, complement order, cached bounds) on random and exhaustive histories, plus a BTreeSet oracle.",
          "Lean 4 proof (invariant + refinement by induction over histories) with differential correspondence",
          "The guard `ok` of the partial theorem excludes restores after union_with and non-LIFO restores (known findings)."),
